@@ -22,6 +22,9 @@ TEXT = {
     "C05": dict(technique="property-based testing (rapid): differential - program compiled with tree rewrites on vs gated off, both under the naive scan",
                 text="Generated-input search over rewrite-shaped ASTs and corpus patterns x options x pattern-directed inputs x every offset: naive scan with rewrites on == naive scan with rewrites off == public find. Non-trivial cases are those where the two programs differ and the un-rewritten one matches.",
                 note="Trusts the rewrite gates (verif tag) to switch off exactly the listed passes; the rest of the reducer runs in both variants.", ref="§6 C05"),
+    "C07": dict(technique="property-based testing (rapid): history invariants over the FindNextMatch sequence + independent recomputation of every step (naive scan hook)",
+                text="Generated-input search over zero-width-heavy ASTs and corpus patterns x options x inputs x n: order, disjointness, no repeated empty match, termination within len+1, every step recomputed by an independent search from the previous end with \\G bound there, completeness of the sequence, and FindAll*/compat.FindAll* equal to the filtered, truncated sequence.",
+                note="Recomputation uses the naive-scan hook (same interpreter); for \\G-free patterns it is cross-checked with the public FindRunesMatchStartingAt.", ref="§6 C07"),
 }
 
 PENDING = "check not built yet in this session (work in progress; see DESIGN.md section 6 for the planned generated-input check)"
